@@ -20,6 +20,7 @@ correspondence check compares them with the exact value to 1e-9.
 | probability exactly `count / (total or 1)` | `C16_distribution_prob` |
 | probabilities sum to exactly 1 | `C16_distribution_sum` |
 | mean = Σ outcome·count / total; variance = E[X²] − E[X]² | `C16_mean_def`, `C16_variance_def` |
+| variance is the central second moment `Σ count·(x−mean)²/total`, hence never negative: `stdev()` — its square root — is always defined for rational outcomes | `C16_variance_central`, `C16_variance_nonneg` |
 | unchanged by scaling the counts / by zero-count outcomes | `C16_mean_scale`, `C16_variance_scale`, `C16_mean_zero_pad`, `C16_variance_zero_pad` |
 | additivity for independent operands | `C16_mean_add`, `C16_variance_add` |
 | zero-total conventions (`total or 1`) | `C16_zero_total` |
@@ -41,6 +42,12 @@ theorem C16_mean_def (h : Hist ℚ) : meanH h = rsum h (fun x => x) / (tot1 h : 
 
 theorem C16_variance_def (h : Hist ℚ) :
     varianceH h none = rsum h (fun x => x * x) / (tot1 h : ℚ) - meanH h * meanH h := rfl
+
+theorem C16_variance_central (h : Hist ℚ) (hT : 0 < total h) :
+    varianceH h none = rsum h (fun x => (x - meanH h) * (x - meanH h)) / (tot1 h : ℚ) :=
+  variance_central h hT
+
+theorem C16_variance_nonneg (h : Hist ℚ) : 0 ≤ varianceH h none := variance_nonneg h
 
 theorem C16_mean_scale (k : Nat) (hk : 0 < k) (h : Hist ℚ) : meanH (scaleH k h) = meanH h :=
   mean_scale k hk h
